@@ -17,16 +17,34 @@ var linTotals = map[string]uint32{"Linear16K": 16384, "Linear32K": 32768, "Linea
 	"GeoRam_512K": 65536 + 1<<19, "GeoRam_2048K": 65536 + 1<<21,
 	"F256_512K": 0x100000 + 32768, "F256_768K": 0x140000 + 32768}
 
-// wrapLayers: when set (snapshot stream only), the machine is built with the coprocessor layer and an output port
-// layer on top of the memory: TakeSnapshot / RestoreSnapshot / ClearStatistics must pass through both
-var wrapLayers = false
+// Wrapper stacks a history can run on (the fourth word of the request, "w<k>"; absent = w0).  The property texts say the
+// linear view and snapshot/restore hold "when the memory is wrapped by trap, port or coprocessor layers":
+//
+//	w0 bare machine
+//	w1 coprocessor layer + output port layer, both put on by emuconfig.NewCpu                     (2 layers)
+//	w2 coprocessor layer (NewCpu) + trap placeholder on top, as caseexec / verify put it on        (2 layers)
+//	w3 coprocessor + output port (NewCpu) + trap placeholder                                       (3 layers)
+//	w4 trap placeholder only                                                                       (1 layer)
+//	w5 output port (NewCpu) + trap placeholder                                                     (2 layers)
+//
+// The placeholder has no write function (as between test cases): a store to the trap address goes to the memory below.
+const maxWrap = 5
 
-func newMem(spec string) memory.Memory {
+// trap addresses of the placeholder layer: addresses the generator's pools hit (a bank register, a window edge, the
+// port page), so the pass-through of the placeholder is exercised too
+var wrapTrapAddr = map[int]uint16{2: 0xFFFF, 3: 0x02F8, 4: 0x0000, 5: 0xA000}
+
+// newMachine builds the machine.  top is what the CPU (and the linear view) uses; under is the memory emuconfig.NewCpu
+// returned, i.e. the memory directly below the trap placeholder (caseexec.newSnapshotProvider takes its snapshot there and
+// restores through the placeholder layer).  Without a placeholder layer under == top.
+func newMachine(spec string, wrap int) (top, under memory.Memory) {
 	cfg := emuconfig.DefaultConfig()
 	cfg.MemSpec = spec
-	if wrapLayers {
+	if wrap == 1 || wrap == 2 || wrap == 3 {
 		cfg.F256MCoprocFlags = 5
 		cfg.F256MCoprocBase = 0x0300
+	}
+	if wrap == 1 || wrap == 3 || wrap == 5 {
 		cfg.IoMask = 0x02
 		cfg.IoAddrConfig = map[uint8]string{0xF0: "stdout:bin"}
 	}
@@ -34,7 +52,36 @@ func newMem(spec string) memory.Memory {
 	if err != nil {
 		panic(err)
 	}
-	return c.Mem
+	under = c.Mem
+	top = under
+	if ta, ok := wrapTrapAddr[wrap]; ok {
+		top = memory.NewPlaceholderWrapper(under, ta).Wrapper
+	}
+	return top, under
+}
+
+// avoidIO: on a wrapped machine the coprocessor's input registers ($0300-$0307) and the output port ($02F0) are I/O,
+// not memory: a store there is (rightly) not a store to the byte behind the address.  The histories are about memory,
+// so stores are moved off these nine addresses.
+func avoidIO(a uint16, wrap int) uint16 {
+	if wrap != 0 && ((a >= 0x0300 && a <= 0x0307) || a == 0x02F0) {
+		return a | 0x0800
+	}
+	return a
+}
+
+func wrapWord(wrap int) string {
+	if wrap == 0 {
+		return ""
+	}
+	return fmt.Sprintf(" w%d", wrap)
+}
+
+// memPlan: what a history runs on and which snapshot operations it may use
+type memPlan struct {
+	wrap      int  // wrapper stack, see newMachine
+	snaps     bool // snapshot / restore operations in the alphabet (always for flavour 7)
+	snapLevel int  // 0: snapshots through the top ("t"); 1: on the memory below the placeholder ("u"); 2: both
 }
 
 func isF256(spec string) bool { return strings.HasPrefix(spec, "F256") }
@@ -116,21 +163,30 @@ func linAddr(r *rng.R, spec string) uint32 {
 
 // memHistory generates and executes one history; flavour selects the operation alphabet:
 // 4 = CPU view only, 5 = both views, 6 = + statistics and clear, 7 = + snapshot/restore
-func memHistory(r *rng.R, spec string, flavour int, length int) string {
-	// the snapshot property also holds "when the memory is wrapped by trap, port or coprocessor layers": a third of
-	// the snapshot histories run on a machine with both layers (the stream judges restore images against the images
-	// at snapshot time only, so the layers' own stores do not matter)
-	wrapLayers = flavour == 7 && length%3 == 0
-	if wrapLayers {
+func memHistory(r *rng.R, spec string, flavour int, length int, plan memPlan) string {
+	// the linear view and the snapshot property also hold "when the memory is wrapped by trap, port or coprocessor
+	// layers": the plan says on which wrapper stack the history runs (flavours 5 and 7 only)
+	if plan.wrap != 0 {
 		count("mem.wrapped")
+		count(fmt.Sprintf("mem.flavour%d.w%d", flavour, plan.wrap))
 	}
-	m := newMem(spec)
-	wrapLayers = false
+	snapsOn := flavour >= 7 || plan.snaps
+	if snapsOn && flavour < 7 {
+		count(fmt.Sprintf("mem.flavour%d.snaps", flavour))
+	}
+	m, under := newMachine(spec, plan.wrap)
 	lm := m.ToLargeMemory()
 	var ops, res []string
 	snapImages := []string{}
 	haveSnap := false
-	pend("mem %s %d |", spec, flavour)
+	nSnap, nRestore := 0, 0
+	// flavour 5 takes few snapshots per history (every one costs two sweeps of the whole machine); the bounds of the
+	// operation alphabet: flavour 7 as before (3% snapshot, 5% restore), flavour 5 out of the otherwise unused 80..99
+	snapLo, snapHi, restoreHi, maxSnap, maxRestore := 92, 95, 100, 1<<30, 1<<30
+	if flavour < 7 {
+		snapLo, snapHi, restoreHi, maxSnap, maxRestore = 80, 86, 96, 2, 3
+	}
+	pend("mem %s %d%s |", spec, flavour, wrapWord(plan.wrap))
 	for i := 0; i < length; i++ {
 		k := r.Intn(100)
 		switch {
@@ -145,7 +201,7 @@ func memHistory(r *rng.R, spec string, flavour int, length int) string {
 			}
 			ops = append(ops, fmt.Sprintf("l%04x", a))
 		case k < 60:
-			a := cpuAddr(r, spec)
+			a := avoidIO(cpuAddr(r, spec), plan.wrap)
 			v := regValue(r, spec, a)
 			pendAppend(fmt.Sprintf(" s%04x=%02x", a, v))
 			if protect(func() { m.Store(a, v) }) {
@@ -199,14 +255,28 @@ func memHistory(r *rng.R, spec string, flavour int, length int) string {
 			m.ClearStatistics()
 			ops = append(ops, "c")
 			res = append(res, "-")
-		case k < 95 && flavour >= 7:
-			m.TakeSnapshot()
+		case k >= snapLo && k < snapHi && snapsOn && nSnap < maxSnap:
+			// "t": snapshot through the top of the stack; "u": snapshot on the memory below the trap placeholder (what
+			// caseexec's snapshot provider does) - the restore always goes through the top
+			tok := "t"
+			if plan.snapLevel == 1 || (plan.snapLevel == 2 && (nSnap+length)%2 == 0) {
+				tok = "u"
+			}
+			pendAppend(" " + tok)
+			if tok == "u" {
+				under.TakeSnapshot()
+			} else {
+				m.TakeSnapshot()
+			}
 			haveSnap = true
-			ops = append(ops, "t")
+			nSnap++
+			ops = append(ops, tok)
 			res = append(res, "-")
 			snapImages = append(snapImages, "T:"+imageOf(spec, m))
-		case k < 100 && flavour >= 7 && haveSnap:
+		case k >= snapHi && k < restoreHi && snapsOn && haveSnap && nRestore < maxRestore:
+			pendAppend(" r")
 			m.RestoreSnapshot()
+			nRestore++
 			ops = append(ops, "r")
 			res = append(res, "-")
 			snapImages = append(snapImages, "R:"+imageOf(spec, m))
@@ -216,7 +286,7 @@ func memHistory(r *rng.R, spec string, flavour int, length int) string {
 	}
 	count(fmt.Sprintf("mem.flavour%d.%s", flavour, spec))
 	var b strings.Builder
-	fmt.Fprintf(&b, "mem %s %d | %s => %s", spec, flavour, strings.Join(ops, " "), strings.Join(res, " "))
+	fmt.Fprintf(&b, "mem %s %d%s | %s => %s", spec, flavour, wrapWord(plan.wrap), strings.Join(ops, " "), strings.Join(res, " "))
 	// final observation: statistics first (pure), then contents
 	b.WriteString(" | S")
 	if flavour == 6 {
@@ -288,18 +358,24 @@ func imageOf(spec string, m memory.Memory) string {
 func memReplayLine(req string) {
 	parts := strings.SplitN(req, "|", 2)
 	hd := strings.Fields(parts[0])
-	if len(hd) != 3 || hd[0] != "mem" || len(parts) != 2 {
+	if (len(hd) != 3 && len(hd) != 4) || hd[0] != "mem" || len(parts) != 2 {
 		return
 	}
 	flavour, _ := strconv.Atoi(hd[2])
-	emit(memExec(hd[1], flavour, strings.Fields(parts[1])))
+	wrap := 0
+	if len(hd) == 4 {
+		w, err := strconv.Atoi(strings.TrimPrefix(hd[3], "w"))
+		if err != nil || !strings.HasPrefix(hd[3], "w") || w < 0 || w > maxWrap {
+			return
+		}
+		wrap = w
+	}
+	emit(memExec(hd[1], flavour, wrap, strings.Fields(parts[1])))
 }
 
 // memExec executes operation tokens on a fresh machine
-func memExec(spec string, flavour int, ops []string) string {
-	wrapLayers = flavour == 7 && len(ops)%3 == 0 // as memHistory does
-	m := newMem(spec)
-	wrapLayers = false
+func memExec(spec string, flavour int, wrap int, ops []string) string {
+	m, under := newMachine(spec, wrap)
 	lm := m.ToLargeMemory()
 	var res []string
 	snapImages := []string{}
@@ -356,6 +432,10 @@ func memExec(spec string, flavour int, ops []string) string {
 			m.TakeSnapshot()
 			res = append(res, "-")
 			snapImages = append(snapImages, "T:"+imageOf(spec, m))
+		case 'u':
+			under.TakeSnapshot()
+			res = append(res, "-")
+			snapImages = append(snapImages, "T:"+imageOf(spec, m))
 		case 'r':
 			m.RestoreSnapshot()
 			res = append(res, "-")
@@ -363,7 +443,7 @@ func memExec(spec string, flavour int, ops []string) string {
 		}
 	}
 	var b strings.Builder
-	fmt.Fprintf(&b, "mem %s %d | %s => %s", spec, flavour, strings.Join(ops, " "), strings.Join(res, " "))
+	fmt.Fprintf(&b, "mem %s %d%s | %s => %s", spec, flavour, wrapWord(wrap), strings.Join(ops, " "), strings.Join(res, " "))
 	b.WriteString(" | S")
 	if flavour == 6 {
 		sweepStats(&b, spec, m)
@@ -372,6 +452,86 @@ func memExec(spec string, flavour int, ops []string) string {
 	b.WriteString(imageOf(spec, m)) // after the statistics sweep: reading the image counts as accesses
 	b.WriteString(" | I " + strings.Join(snapImages, " ; "))
 	return b.String()
+}
+
+// memFixed: boundary histories of the linear-view and snapshot properties, one per machine family, as operation tokens
+// ("T" stands for the snapshot operation, replaced by "t" or "u").  No expectation is written down here: the driver
+// judges the answers and the final image against the documented layout like every other history.  The shape is the one of
+// verify/verifyall with a setup program: set a bank, write into the window, SNAPSHOT, switch the bank and overwrite,
+// RESTORE, and only then switch to a third bank and write through the CPU window - the byte must be at the linear
+// address of the third bank, the bank register must read the same through both views, the snapshot bank must still hold
+// the snapshot byte; then a linear write into a further bank (ROM / I/O bank) read back through the window; the last
+// byte of the machine, the first address past the end (a fault) for load and store; a second restore.
+func memFixed(spec string) [][]string {
+	total := linTotals[spec]
+	l := func(a uint32) string { return fmt.Sprintf("L%08x", a) }
+	st := func(a uint32, v uint8) string { return fmt.Sprintf("S%08x=%02x", a, v) }
+	tail := []string{l(total - 1), st(total-1, 0x99), l(total - 1), l(total), st(total, 0x01), l(total + 0x10000), "r", l(total - 1)}
+	var h []string
+	switch {
+	case strings.HasPrefix(spec, "XSixteen"):
+		rom := total - 32*16384
+		h = []string{"s0000=03", "sa010=31", "s0001=04", "sc020=41", "T", "s0000=07", "sa010=71", "s0001=06", "sc020=61", "r",
+			"l0000", "l0001", "la010", "lc020",
+			"s0000=05", "sa010=77", "L00000000", l(0xA000 + 5*8192 + 0x10), l(0xA000 + 3*8192 + 0x10), l(0xA000 + 7*8192 + 0x10), "la010",
+			"s0000=03", "la010", "S00000001=02", "L00000001", "l0001", st(rom+2*16384+0x20, 0x55), "lc020", l(rom + 4*16384 + 0x20),
+			st(0xA000+9*8192+0x11, 0x66), "S00000000=09", "la011", "l0000", "s0000=3f", "sbfff=12", l(0xA000 + 64*8192 - 1)}
+	case strings.HasPrefix(spec, "GeoRam"):
+		bits := uint32(5)
+		if spec == "GeoRam_2048K" {
+			bits = 7
+		}
+		page := func(track, sector uint32) uint32 { return 0x10000 + ((track<<bits)|sector)*256 }
+		h = []string{"sdffe=02", "sdfff=03", "sde10=31", "T", "sdffe=04", "sde10=71", "sdfff=01", "sde11=72", "r",
+			"ldffe", "ldfff", "lde10", "lde11",
+			"sdffe=05", "sdfff=01", "sde10=77", "L0000dffe", "L0000dfff", l(page(5, 1) + 0x10), l(page(2, 3) + 0x10), l(page(4, 3) + 0x10), "lde10",
+			"sdffe=02", "sdfff=03", "lde10", st(page(2, 3)+0x11, 0x55), "lde11", "S0000dffe=06", "ldffe", st(page(6, 3)+0x12, 0x66), "lde12",
+			"S0000de12=13", "lde12", "L0000de12", "sdffe=3f", "sdfff=ff", "sdeff=12", l(total - 1)}
+	case isF256(spec):
+		sys := total - 32768
+		h = []string{"s0000=80", "s000a=05", "s4010=31", "s0001=01", "sc020=41", "T", "s000a=07", "s4010=71", "s0001=02", "sc020=61", "s0000=91", "s000b=06", "r",
+			"l0000", "l0001", "l000a", "l4010", "lc020",
+			"s000a=09", "s4010=77", l(9*8192 + 0x10), l(5*8192 + 0x10), l(7*8192 + 0x10), "l4010",
+			"s000a=05", "l4010", st(5*8192+0x11, 0x55), "l4011", "s0001=03", st(sys+3*8192+0x20, 0x66), "lc020", l(sys + 1*8192 + 0x20),
+			"s0001=04", "sc021=14", l(6*8192 + 0x21), "s0000=00", "l000a", "s000a=2a", "L0000000a", "S00000000=b0", "l0000", "s000f=3f", "s0000=03", "lffff"}
+	default:
+		h = []string{"s0010=31", "T", "s0010=71", "s3fff=05", "r", "l0010", "l3fff", "s0010=77", "L00000010", "S00000011=55", "l0011", "s0011=56", "L00000011"}
+	}
+	return [][]string{append(append([]string{}, h...), tail...)}
+}
+
+// the fixed histories run on these (wrapper stack, snapshot operation) pairs
+var memFixedOn = map[int][]struct {
+	wrap int
+	snap string
+}{
+	5: {{0, "t"}, {1, "t"}, {3, "t"}, {2, "u"}},
+	7: {{0, "t"}, {1, "t"}, {2, "t"}, {3, "u"}, {4, "u"}, {5, "u"}},
+}
+
+func hasTrapLayer(wrap int) bool { _, ok := wrapTrapAddr[wrap]; return ok }
+
+// memPlanFor: wrapper stack and snapshot alphabet of the i-th generated history of a machine (a function of the index: every
+// stack and every snapshot level occurs in the quick tier on every machine).  Flavours 4 and 6: always the bare machine.
+func memPlanFor(flavour int, i int) memPlan {
+	var p memPlan
+	switch flavour {
+	case 5:
+		// a third of the histories on a wrapped machine (mostly two or more layers); a quarter with snapshot / restore
+		if i%3 == 1 {
+			p.wrap = []int{1, 3, 2, 5, 4}[(i/3)%5]
+		}
+		p.snaps = i%4 == 2
+	case 7:
+		// half of the histories on a wrapped machine (the long ones, i%10 == 0, included from time to time)
+		p.wrap = []int{0, 1, 0, 2, 0, 3, 0, 4, 0, 5}[(i+i/10)%10]
+		p.snaps = true
+	}
+	if p.snaps && hasTrapLayer(p.wrap) {
+		// below the placeholder only / through the top only / both
+		p.snapLevel = []int{1, 0, 2}[(i/2+i/10)%3]
+	}
+	return p
 }
 
 func memStream(seed uint64, n int, flavour int) {
@@ -384,12 +544,26 @@ func memStream(seed uint64, n int, flavour int) {
 			}
 		}
 		r := root.Fork()
+		for _, on := range memFixedOn[flavour] {
+			for _, h := range memFixed(spec) {
+				ops := make([]string, len(h))
+				for j, t := range h {
+					if t == "T" {
+						t = on.snap
+					}
+					ops[j] = t
+				}
+				count(fmt.Sprintf("mem.flavour%d.fixed", flavour))
+				pend("mem %s %d%s | %s", spec, flavour, wrapWord(on.wrap), strings.Join(ops, " "))
+				emit(memExec(spec, flavour, on.wrap, ops))
+			}
+		}
 		for i := 0; i < n; i++ {
 			length := 20 + r.Intn(60)
 			if i%10 == 0 {
 				length = 200 + r.Intn(300)
 			}
-			emit(memHistory(r, spec, flavour, length))
+			emit(memHistory(r, spec, flavour, length, memPlanFor(flavour, i)))
 		}
 	}
 }
